@@ -142,10 +142,10 @@ def encode_table(F):
     return enc, fn
 
 
-def check_dispatch(ctx, F, cfg, spec):
+def check_dispatch(ctx, F, cfg, spec, P="C11"):
     fn = F.fn(DESER)
     if fn is None:
-        ctx.violation("C11|anchor|Request::deserialize", "anchor missing: ctap2::Request::deserialize", cfg=cfg)
+        ctx.violation(P + "|anchor|Request::deserialize", "anchor missing: ctap2::Request::deserialize", cfg=cfg)
         return 0
     A = Analysis(fn)
     # --- the command byte and the tail
@@ -161,7 +161,7 @@ def check_dispatch(ctx, F, cfg, spec):
                 b1 = H.pat_bindings(pat["pats"][1])
                 if len(b0) == 1 and len(b1) == 1:
                     op_id, tail_id = b0[0][1], b1[0][1]
-    ok = ctx.oblige("C11|dispatch|split_first", op_id is not None,
+    ok = ctx.oblige(P + "|dispatch|split_first", op_id is not None,
                     "Request::deserialize no longer takes the command byte and the payload tail from `data.split_first()`", cfg=cfg, where=fn["sp"])
     if not ok:
         return 0
@@ -211,11 +211,11 @@ def check_dispatch(ctx, F, cfg, spec):
                         seen.setdefault(name, []).append((s, p))
             elif v:
                 seen.setdefault(v.split("::")[-1], []).append((s, p))
-    ctx.oblige("C11|dispatch|unknown-byte", bool(disp_closure_ok),
+    ctx.oblige(P + "|dispatch|unknown-byte", bool(disp_closure_ok),
                "a byte that is not a recognised command is no longer reported as CtapMappingError::InvalidCommand(op)", cfg=cfg, where=fn["sp"])
     for name in variants:
         want = spec["decode"].get(name)
-        key = "C11|dispatch|" + name
+        key = P + "|dispatch|" + name
         sites = seen.get(name, [])
         if want is None:
             ctx.note("Operation::%s has no row in spec/commands.json (new variant): its dispatch is not judged" % name)
